@@ -131,6 +131,13 @@ HostBlocked(H, n, q) ==
     ELSE IF \E p \in H : Undetermined(p, n, q) THEN {TRUE, FALSE}
     ELSE {FALSE}
 
+\* What an empty blocked-hosts list of a *configuration* stands for
+\* (defaultBlockedHosts: names asked by all kinds of DNS probes).  A list
+\* posted through the API is taken as it is, empty or not.
+DefaultHosts == { Pat("exact", <<"version","bind">>), Pat("exact", <<"id","server">>),
+                 Pat("exact", <<"hostname","bind">>) }
+EffectiveHosts(H) == IF H = {} THEN DefaultHosts ELSE H
+
 \* ------------------------------------------------------------------ response
 Protos      == {"udp", "tcp", "tls", "https", "quic", "dnscrypt"}
 \* Transports on which a denied request gets no reply at all.
